@@ -420,4 +420,134 @@ theorem sbLoop_spec (dlo : List Nat) (d0 d1 dinv : Nat) (hdlo : Limbs dlo) (hd0 
           + (val ql * val (dlo ++ [d0, d1]) + (val w' + B ^ (dlo.length + 1) * n1')) := by ring
     rw [e2, ← h3]; ring
 
+/-- the initial compare-and-subtract sb_div_qr.c:64-66 on the dn high limbs -/
+theorem sb_init (hi d : List Nat) (hhi : Limbs hi) (hd : Limbs d) (hl : hi.length = d.length)
+    (h2 : B ^ d.length ≤ 2 * val d) :
+    ∃ qh hi', (if cmp hi d ≥ 0 then 1 else 0) = qh ∧
+      (if qh ≠ 0 then (sub_n hi d).1 else hi) = hi' ∧
+      qh ≤ 1 ∧ val hi = qh * val d + val hi' ∧ val hi' < val d ∧ Limbs hi' ∧ hi'.length = d.length := by
+  have hc := cmpRev_spec hi.reverse d.reverse (Limbs_reverse hhi) (Limbs_reverse hd) (by simpa using hl)
+  rw [List.reverse_reverse, List.reverse_reverse] at hc
+  change (cmp hi d = -1 ∧ _) ∨ (cmp hi d = 0 ∧ _) ∨ (cmp hi d = 1 ∧ _) at hc
+  have hlt := val_lt hi hhi
+  rw [hl] at hlt
+  have hge : cmp hi d ≥ 0 → val d ≤ val hi := by
+    rcases hc with ⟨e, _⟩ | ⟨_, h⟩ | ⟨_, h⟩
+    · rw [e]; intro h; exact absurd h (by decide)
+    · intro _; omega
+    · intro _; omega
+  have hlt' : ¬ cmp hi d ≥ 0 → val hi < val d := by
+    rcases hc with ⟨_, h⟩ | ⟨e, _⟩ | ⟨e, _⟩
+    · intro _; exact h
+    · rw [e]; intro h; exact absurd (by decide) h
+    · rw [e]; intro h; exact absurd (by decide) h
+  by_cases hq : cmp hi d ≥ 0
+  · obtain ⟨sv, sc, sl, sn⟩ := subNC_val hi d 0 hhi hd hl (by omega)
+    change val (sub_n hi d).1 + _ + 0 = _ + _ * (sub_n hi d).2 at sv
+    change (sub_n hi d).2 ≤ 1 at sc
+    change Limbs (sub_n hi d).1 at sl
+    change (sub_n hi d).1.length = _ at sn
+    refine ⟨1, (sub_n hi d).1, by rw [if_pos hq], by simp, le_refl _, ?_, ?_, sl, by rw [sn, hl]⟩
+    all_goals
+      have := hge hq
+      have hr := val_lt _ sl
+      rw [sn, hl] at hr
+      rw [hl] at sv
+      generalize (sub_n hi d) = res at *
+      obtain ⟨r, c⟩ := res
+      simp only at sv sc hr ⊢
+      have hc0 : c = 0 := by
+        rcases Nat.eq_zero_or_pos c with h | h
+        · exact h
+        · have : c = 1 := by omega
+          subst this; omega
+      subst hc0
+      omega
+  · exact ⟨0, hi, by rw [if_neg hq], by simp, by omega, by simp, hlt' hq, hhi, hl⟩
+
+theorem sb_div_qr_eq (n dlo : List Nat) (d0 d1 dinv : Nat) :
+    sb_div_qr n (dlo ++ [d0, d1]) dinv =
+      (let hi := n.drop (n.length - (dlo.length + 2))
+       let qh := if cmp hi (dlo ++ [d0, d1]) ≥ 0 then 1 else 0
+       let hi' := if qh ≠ 0 then (sub_n hi (dlo ++ [d0, d1])).1 else hi
+       let s := sbLoop (dlo ++ [d0, d1]) d1 d0 dinv (n.take (n.length - (dlo.length + 2))).reverse
+         (hi'.take (dlo.length + 1)) (hi'.getD (dlo.length + 1) 0) []
+       (s.1, s.2.1 ++ [s.2.2], qh)) := by
+  have e0 : (dlo ++ [d0, d1]).length = dlo.length + 2 := by simp
+  unfold sb_div_qr
+  simp only [e0, show dlo.length + 2 - 1 = dlo.length + 1 from rfl, show dlo.length + 2 - 2 = dlo.length from rfl,
+    getD_top0, getD_top1]
+
+theorem norm_pow (dlo : List Nat) (d0 d1 : Nat) (hnorm : B / 2 ≤ d1) :
+    B ^ (dlo.length + 2) ≤ 2 * val (dlo ++ [d0, d1]) := by
+  rw [val_top2, pow_k2]
+  have : B ≤ 2 * d1 := by simp only [B_eq] at *; omega
+  have : B ^ dlo.length * B * B ≤ B ^ dlo.length * B * (2 * d1) := Nat.mul_le_mul_left _ this
+  have e : 2 * (val dlo + B ^ dlo.length * (d0 + B * d1))
+      = B ^ dlo.length * B * (2 * d1) + (2 * val dlo + 2 * (B ^ dlo.length * d0)) := by ring
+  omega
+
+/-- mpn_sb_div_qr on a divisor written as low limbs and two top limbs -/
+theorem sb_div_qr_split (n dlo : List Nat) (d0 d1 dinv : Nat) (hnn : dlo.length + 2 ≤ n.length)
+    (hn : Limbs n) (hdlo : Limbs dlo) (hd0 : d0 < B) (hd1 : d1 < B) (hnorm : B / 2 ≤ d1)
+    (hdinv : dinv = invert_pi1 d1 d0) :
+    ∃ q r qh, sb_div_qr n (dlo ++ [d0, d1]) dinv = (q, r, qh) ∧
+      val n = (qh * B ^ (n.length - (dlo.length + 2)) + val q) * val (dlo ++ [d0, d1]) + val r ∧
+      val r < val (dlo ++ [d0, d1]) ∧ qh ≤ 1 ∧ Limbs q ∧ q.length = n.length - (dlo.length + 2) ∧
+      Limbs r ∧ r.length = dlo.length + 2 := by
+  have hd : Limbs (dlo ++ [d0, d1]) := Limbs_append.mpr ⟨hdlo, Limbs_pair hd0 hd1⟩
+  have hdl : (dlo ++ [d0, d1]).length = dlo.length + 2 := by simp
+  have hhi : Limbs (n.drop (n.length - (dlo.length + 2))) := Limbs_drop hn _
+  have hhil : (n.drop (n.length - (dlo.length + 2))).length = (dlo ++ [d0, d1]).length := by
+    rw [List.length_drop, hdl]; omega
+  have hlo : Limbs (n.take (n.length - (dlo.length + 2))).reverse := Limbs_reverse (Limbs_take hn _)
+  have hnv := val_take_drop n (n.length - (dlo.length + 2)) (by omega)
+  have hlol : (n.take (n.length - (dlo.length + 2))).reverse.length = n.length - (dlo.length + 2) := by
+    rw [List.length_reverse, List.length_take]; omega
+  obtain ⟨qh, hi', e1, e2, hqh, hv, hlt, hl', hll'⟩ :=
+    sb_init _ _ hhi hd hhil (by rw [hdl]; exact norm_pow dlo d0 d1 hnorm)
+  rw [sb_div_qr_eq]
+  simp only []
+  rw [e1, e2]
+  rw [hdl] at hll'
+  have htop := val_take_top hi' (dlo.length + 1) hll'
+  obtain ⟨ql, w', n1', el, hqll, hql, h3, h4, hw', hw'l, hn1'⟩ :=
+    sbLoop_spec dlo d0 d1 dinv hdlo hd0 hd1 hnorm hdinv (n.take (n.length - (dlo.length + 2))).reverse
+      (hi'.take (dlo.length + 1)) (hi'.getD (dlo.length + 1) 0) [] hlo (Limbs_take hl' _)
+      (by rw [List.length_take, hll']; omega) (limb_getD hl' _) (by rw [htop]; exact hlt)
+  rw [el]
+  simp only [List.append_nil]
+  rw [htop, List.reverse_reverse, hlol] at h3
+  refine ⟨ql, w' ++ [n1'], qh, rfl, ?_, ?_, hqh, hql, by rw [hqll, hlol], Limbs_snoc hw' hn1', by simp [hw'l]⟩
+  · rw [val_top1, hw'l, hnv, hv]
+    generalize val (dlo ++ [d0, d1]) = V at *
+    generalize B ^ (n.length - (dlo.length + 2)) = Q at *
+    have e : val (List.take (n.length - (dlo.length + 2)) n) + Q * (qh * V + val hi')
+        = (val (List.take (n.length - (dlo.length + 2)) n) + Q * val hi') + Q * qh * V := by ring
+    rw [e, h3]; ring
+  · rw [val_top1, hw'l]; exact h4
+
+/-- full correctness of the model of mpn_sb_div_qr -/
+theorem sb_div_qr_correct (n d : List Nat) (dinv : Nat) (hdn : 3 ≤ d.length) (hnn : d.length ≤ n.length)
+    (hnorm : B / 2 ≤ d.getD (d.length - 1) 0) (hn : Limbs n) (hd : Limbs d)
+    (hdinv : dinv = invert_pi1 (d.getD (d.length - 1) 0) (d.getD (d.length - 2) 0)) :
+    ∃ q r qh, sb_div_qr n d dinv = (q, r, qh) ∧
+      val n = (qh * B ^ (n.length - d.length) + val q) * val d + val r ∧
+      val r < val d ∧ qh ≤ 1 ∧ Limbs q ∧ q.length = n.length - d.length ∧ Limbs r ∧ r.length = d.length := by
+  obtain ⟨k, hk⟩ : ∃ k, d.length = k + 2 := ⟨d.length - 2, by omega⟩
+  have hsplit := split_top2 d k hk
+  have hdlo := Limbs_take hd k
+  have hd0 := limb_getD hd k
+  have hd1 := limb_getD hd (k + 1)
+  have hlen : (d.take k).length = k := by rw [List.length_take, hk]; omega
+  rw [hk, show k + 2 - 1 = k + 1 from rfl] at hnorm hdinv
+  rw [show k + 2 - 2 = k from rfl] at hdinv
+  rw [hk] at hnn ⊢
+  generalize d.take k = dlo at *
+  generalize d.getD k 0 = d0 at *
+  generalize d.getD (k + 1) 0 = d1 at *
+  subst hsplit
+  subst hlen
+  exact sb_div_qr_split n dlo d0 d1 dinv hnn hn hdlo hd0 hd1 hnorm hdinv
+
 end Mpir.SbDiv
